@@ -601,6 +601,10 @@ package value
 //@ func strExecSlice
 //@   requires s != nil
 //@   modifies nothing
+//@   ensures [negative-start-counts-from-the-end] r1 == nil && is(values[0], *Number) ==>
+//@             startIdx == (trunc(as(values[0], *Number).value) < 0 ? runeCount(s.value) + trunc(as(values[0], *Number).value) + 1 : trunc(as(values[0], *Number).value))
+//@   ensures [negative-end-counts-from-the-end] r1 == nil && is(values[1], *Number) ==>
+//@             endIdx == (trunc(as(values[1], *Number).value) < 0 ? runeCount(s.value) + trunc(as(values[1], *Number).value) + 1 : trunc(as(values[1], *Number).value))
 //@   ensures [start-before-the-text-is-an-exception] r1 == nil ==> startIdx >= 1
 //@   ensures [end-after-the-text-is-an-exception] r1 == nil ==> endIdx <= runeCount(s.value)
 //@   ensures [empty-when-start-after-end] r1 == nil && startIdx > endIdx ==> is(r0, *String) && runeCount(as(r0, *String).value) == 0
